@@ -1844,6 +1844,8 @@ class Interp:
         if isinstance(v, bool):
             return v
         if isinstance(v, RealTest):
+            if v.negated:
+                raise Unsupported('the negation of a test for real roots used as a plain condition', node)
             return True         # the analysis follows the real roots
         if getattr(v, 'ambiguous_eq', False):
             raise Unsupported('truth value of number == sequence (depends on whether the number is a numpy value)',
@@ -2003,6 +2005,15 @@ class Frame:
             raise _RaisedExc(Raised(exc, st))
         if isinstance(st, ast.If):
             tv = self.ev(st.test)
+            if isinstance(tv, RealTest) and tv.negated and self.in_vec_loop:
+                # `if not np.isreal(x): continue`: what follows in the loop body runs for the real roots only
+                if st.orelse or not (len(st.body) == 1 and isinstance(st.body[0], ast.Continue)):
+                    raise Unsupported('a branch for the roots that are not real', st, self.module.relpath)
+                plain_, real_ = Rat.atom(tv.atom), Rat.atom(_real_roots(I, tv.atom))
+                for k_ in list(self.env.keys()):
+                    if isinstance(k_, str) and isinstance(self.env[k_], Rat) and self.env[k_].eq(plain_):
+                        self.env[k_] = real_        # until the loop variable is bound again
+                return
             if isinstance(tv, RealTest) and self.in_vec_loop:
                 # `if np.isreal(x):` inside a loop over the roots: the body runs for the real roots only - every local
                 # bound to the unfiltered root stands for a real root in there (as in a comprehension filter)
@@ -2716,6 +2727,8 @@ class Frame:
                 return I.neg(v)
             if isinstance(n.op, ast.UAdd):
                 return v
+            if isinstance(n.op, ast.Not) and isinstance(v, RealTest):
+                return RealTest(v.atom, not v.negated)
             if isinstance(n.op, ast.Not):
                 return not I.truth(v, n)
             if isinstance(n.op, ast.Invert) and 'numpy.logical_not' in I.native and (
@@ -2970,10 +2983,16 @@ class Frame:
                     raise Unsupported('filter rejects the generic element', n, self.module.relpath)
             if selected is not None:
                 # [x for x in roots if np.isreal(x)]: the entries that pass are the real roots
-                if _root_atom(self.I, it.r) != selected:
+                plain_, real_ = Rat.atom(selected), Rat.atom(_real_roots(self.I, selected))
+                hit_ = False
+                for k_ in list(sub.env.keys()):
+                    if isinstance(k_, str) and dict.__contains__(sub.env, k_) and isinstance(sub.env[k_], Rat) and \
+                            sub.env[k_].eq(plain_):
+                        sub.env[k_] = real_         # the loop variables that hold the root pass as real roots
+                        hit_ = True
+                if not hit_:
                     raise Unsupported('np.isreal filter on something other than the loop variable', n,
                                       self.module.relpath)
-                sub.assign(g.target, Rat.atom(_real_roots(self.I, selected)))
             return Elem(sub.ev(n.elt))
         out = []
         sub = Frame(self.I, self.module, Env(self.env, {}), self.owner, self.self_obj)       # one scope (see above)
@@ -3142,6 +3161,8 @@ class Frame:
         if isinstance(base, Elem) and isinstance(idx, Elem) and getattr(idx, 'mask_all', False):
             ra = getattr(idx, 'real_of', None)
             if ra is not None:
+                if _root_atom(self.I, base.r) == 'RE{%s}' % ra:
+                    return Elem(Rat.atom(_real_roots(self.I, ra)))      # real parts of the real entries: the entries
                 if _root_atom(self.I, base.r) != ra:
                     raise Unsupported('a real-root mask applied to another vector', n)
                 return Elem(Rat.atom(_real_roots(self.I, ra)))
@@ -3798,7 +3819,9 @@ class ZipV:
     def generic(self):
         vals = []
         for s in self.seqs:
-            if isinstance(s, Elem):
+            if isinstance(s, Elem) and getattr(s, 'real_of', None) is not None:
+                vals.append(RealTest(s.real_of))    # an entry of the mask np.isreal made of the roots
+            elif isinstance(s, Elem):
                 vals.append(s.r)
             else:
                 raise Unsupported('zip of a vector with a fixed-length sequence')
@@ -4578,6 +4601,15 @@ def clock_object(kind):
     return o
 
 
+NDARRAY_MEMBERS = frozenset('''
+T _set_dtype _set_shape all any argmax argmin argpartition argsort astype base byteswap choose clip compress
+conj conjugate copy ctypes cumprod cumsum data device diagonal dot dtype dump dumps fill flags flat flatten
+getfield imag item itemsize mT max mean min nbytes ndim nonzero partition prod put ravel real repeat reshape
+resize round searchsorted setfield setflags shape size sort squeeze std strides sum swapaxes take to_device
+tobytes tofile tolist trace transpose var view
+'''.split())
+
+
 NUMPY_SCALAR_MEMBERS = frozenset('''
 T all any argmax argmin argsort astype base byteswap choose clip compress conj copy cumprod cumsum data device
 diagonal dtype dump dumps fill flags flat flatten getfield item itemsize max mean min nbytes ndim nonzero prod
@@ -4829,6 +4861,7 @@ def bound_native(I, fr, bn, args, kwargs, n):
     real = dir(dict) if isinstance(b, DictV) else \
         dir(frozenset if getattr(b, 'frozen', False) else set) if isinstance(b, ListV) and getattr(b, 'is_set', False) \
         else dir(list) if isinstance(b, ListV) and not getattr(b, 'is_array', False) and not is_iter(b) \
+        else (NDARRAY_MEMBERS | set(dir(object))) if isinstance(b, ListV) and getattr(b, 'is_array', False) \
         else dir(str) if isinstance(b, str) \
         else dir(iter(())) if is_iter(b) \
         else dir(bool) if isinstance(b, bool) \
@@ -5964,8 +5997,9 @@ class RealTest:
     """outcome of np.isreal on a root of a polynomial: true for the real roots - the analysis follows those, and a
     selection made with this test (a filter in a comprehension, a boolean mask) yields the real roots REAL{...}"""
 
-    def __init__(self, atom):
+    def __init__(self, atom, negated=False):
         self.atom = atom
+        self.negated = negated      # `not np.isreal(x)`: true for the roots the analysis does not follow
 
 
 def _root_atom(I, r):
@@ -5985,12 +6019,18 @@ def _real_roots(I, atom):
     return name
 
 
+def _denotes_real(atom):
+    """an atom that stands for a real number although it is derived from the roots of a polynomial: a root selected
+    with np.isreal, the real part of a root, an extremum of such numbers"""
+    return atom.startswith(('REAL{', 'RE{', 'MAX{REAL{', 'MIN{REAL{', 'MAX{RE{', 'MIN{RE{'))
+
+
 def _np_isreal(I, fr, args, kwargs, n):
     v = args[0]
     if isinstance(v, Rat):
         at = _root_atom(I, v)
         if at is not None:
-            return True if at.startswith('REAL{') else RealTest(at)
+            return True if _denotes_real(at) else RealTest(at)
         if not any(a_ in I.roots for a_ in v.atoms()):
             return True       # real quantities
     if isinstance(v, Elem) and isinstance(v.r, Rat):
@@ -6012,13 +6052,12 @@ def _np_real(I, fr, args, kwargs, n):
         v = _vec_norm(v)
     r = v.r if isinstance(v, Elem) else v
     at = _root_atom(I, r)
-    if at is not None and not at.startswith('REAL{') and not at.startswith('RE{'):
+    if at is not None and not _denotes_real(at):
         name = 'RE{%s}' % at
         I.roots[name] = I.roots[at]
         I.D.kind[name] = 'root'
         return Elem(Rat.atom(name)) if isinstance(v, Elem) else Rat.atom(name)
-    if isinstance(r, Rat) and at is None and any(a_ in I.roots and not a_.startswith(('REAL{', 'MAX{REAL', 'MIN{REAL'))
-                                                 for a_ in r.atoms()):
+    if isinstance(r, Rat) and at is None and any(a_ in I.roots and not _denotes_real(a_) for a_ in r.atoms()):
         raise Unsupported('real part of an expression in unfiltered polynomial roots', n)
     return v
 
